@@ -436,6 +436,11 @@ public:
             restart(nev_adj, selection);
             SPECTRA_VERIF_EVENT("eigs.restart", this, i, nev_adj);
         }
+        // If the iteration limit was reached, the flags were computed before the last
+        // restart (or not at all when maxit == 0): refresh them so that they describe
+        // the Ritz pairs that are actually returned
+        if (i >= maxit)
+            nconv = num_converged(tol);
         // Sorting results
         sort_ritzpair(sorting);
         SPECTRA_VERIF_EVENT("eigs.sorted", this, i, nconv);
